@@ -61,6 +61,8 @@ Sync == cfg.flavour = "sync"
 \* the state a thread's code works on while it runs
 \* st = [c, ver, p (pc record), out (results appended)]
 
+OpSize(o) == IF "size" \in DOMAIN o THEN o.size ELSE 1
+
 Finish(st, exec, ret) ==
   [st EXCEPT !.p.i = @ + 1, !.p.lbl = "next", !.out = Append(@, [exec |-> exec, ret |-> ret])]
 
@@ -100,17 +102,28 @@ RunFrom(ops, st) ==
        ELSE [st EXCEPT !.p.lbl = "a.ins", !.p.want = W("order", "x")]
   ELSE IF p.lbl = "ins.req"
   THEN IF ops[p.i].op = "callx" THEN RunFrom(ops, Finish(st, TRUE, p.v))
-       ELSE [st EXCEPT !.p.lbl = "ins.put", !.p.want = W("map", "w")]
+       ELSE [st EXCEPT !.p.lbl = IF cfg.maxmem # 0 THEN "mins.put" ELSE "ins.put", !.p.want = W("map", "w")]
   ELSE st
 
 FirstOf(S) == CHOOSE x \in S : TRUE
 
-\* deterministic victim of fifo / lru / lfu (the scan takes the first minimal queue position)
+\* deterministic victim: the scans take the FIRST minimal queue position (fifo / lru pop the front)
 FirstEvict(cf, cc) ==
-  IF cf.policy = "lfu"
+  IF cf.policy \in {"lfu", "arc", "tlru"}
   THEN LET P == MinScorePositions(cf, cc) IN
        IF P = {} THEN cc ELSE RemoveKey(cf, cc, cc.order[MinOf(P)])
   ELSE FirstOf(EvictOne(cf, cc, "limit")).c
+
+\* the memory loop stops when nothing can be evicted any more
+CanEvict(cf, cc) ==
+  IF cf.policy \in {"lfu", "arc", "tlru"} THEN LivePositions(cc) # {} ELSE cc.order # <<>>
+
+\* async memory loop (inside the queue lock): evict first-minimal / queue front until the pending value fits
+RECURSIVE AsyncMemLoop(_, _, _)
+AsyncMemLoop(cf, cc, pending) ==
+  IF TotalSize(cc) + pending <= cf.maxmem \/ ~CanEvict(cf, cc) THEN cc
+  ELSE AsyncMemLoop(cf, IF cf.policy \in {"lfu", "arc", "tlru"} THEN FirstEvict(cf, cc)
+                        ELSE [cc EXCEPT !.order = Tail(@), !.store = Without(@, {Head(cc.order)})], pending)
 
 \* ----- the critical section entered when thread t is granted p.want; returns
 \*       [st, hold (locks still held afterwards), cont (TRUE: continue lock-free code)]
@@ -149,8 +162,34 @@ Granted(ops, st) ==
          LET c1 == IF k \in Dom(cc) THEN [cc EXCEPT !.store[k].hits = @ + 1] ELSE cc IN
          [st |-> Finish([st EXCEPT !.c = c1], FALSE, p.hitv), hold |-> {}, go |-> TRUE]
     [] p.lbl = "ins.put" ->
-         [st |-> [st EXCEPT !.c.store = (k :> Entry(p.v, 1)) @@ @, !.p.lbl = "ins.order", !.p.want = W("order", "x")],
+         [st |-> [st EXCEPT !.c.store = (k :> Entry(p.v, OpSize(ops[p.i]))) @@ @, !.p.lbl = "ins.order", !.p.want = W("order", "x")],
           hold |-> {}, go |-> FALSE]
+    \* ---------------- sync insert_with_memory: put; then everything else nested inside the queue lock:
+    \* size of the new value (map:r), [oversize: undo (map:w)], loop { total (map:r), evict one (map:w) },
+    \* entry-limit step (map:w)
+    [] p.lbl = "mins.put" ->
+         [st |-> [st EXCEPT !.c.store = (k :> Entry(p.v, OpSize(ops[p.i]))) @@ @, !.p.lbl = "mins.order", !.p.want = W("order", "x")],
+          hold |-> {}, go |-> FALSE]
+    [] p.lbl = "mins.order" ->
+         [st |-> [st EXCEPT !.c.order = Append(DelFirst(@, k), k), !.p.lbl = "mins.size", !.p.want = W("map", "r")],
+          hold |-> {"order"}, go |-> FALSE]
+    [] p.lbl = "mins.size" ->
+         LET sz == IF k \in Dom(cc) THEN cc.store[k].size ELSE 0 IN
+         IF sz > cfg.maxmem
+         THEN [st |-> [st EXCEPT !.p.lbl = "mins.over", !.p.want = W("map", "w")], hold |-> {"order"}, go |-> FALSE]
+         ELSE [st |-> [st EXCEPT !.p.lbl = "mins.sum", !.p.want = W("map", "r")], hold |-> {"order"}, go |-> FALSE]
+    [] p.lbl = "mins.over" ->
+         [st |-> Finish([st EXCEPT !.c.store = Without(@, {k}),
+                                   !.c.order = SubSeq(@, 1, Len(@) - 1)], TRUE, p.v), hold |-> {}, go |-> TRUE]
+    [] p.lbl = "mins.sum" ->
+         IF TotalSize(cc) <= cfg.maxmem \/ ~CanEvict(cfg, cc)
+         THEN IF cfg.limit # 0 /\ Len(cc.order) > cfg.limit
+              THEN [st |-> [st EXCEPT !.p.lbl = "ins.evict", !.p.want = W("map", "w")], hold |-> {"order"}, go |-> FALSE]
+              ELSE [st |-> Finish(st, TRUE, p.v), hold |-> {}, go |-> TRUE]
+         ELSE [st |-> [st EXCEPT !.p.lbl = "mins.evict", !.p.want = W("map", "w")], hold |-> {"order"}, go |-> FALSE]
+    [] p.lbl = "mins.evict" ->
+         [st |-> [st EXCEPT !.c = FirstEvict(cfg, cc), !.p.lbl = "mins.sum", !.p.want = W("map", "r")],
+          hold |-> {"order"}, go |-> FALSE]
     [] p.lbl = "ins.order" ->
          LET c1 == [cc EXCEPT !.order = Append(DelFirst(@, k), k)] IN
          IF cfg.limit # 0 /\ Len(c1.order) > cfg.limit
@@ -172,9 +211,13 @@ Granted(ops, st) ==
          [st |-> Finish([st EXCEPT !.c = c1], FALSE, p.hitv), hold |-> {}, go |-> TRUE]
     [] p.lbl = "a.ins" ->
          \* the whole async insert inside the queue lock; ties resolved as the scan does (first minimal)
-         LET c1 == AsyncDropOld(cfg, cc, k)
-             c2 == IF LimitExceeded(cfg, c1) THEN FirstEvict(cfg, c1) ELSE c1 IN
-         [st |-> Finish([st EXCEPT !.c = PushPut(c2, k, p.v, 1)], TRUE, p.v), hold |-> {}, go |-> TRUE]
+         LET sz == OpSize(ops[p.i])
+             c1 == AsyncDropOld(cfg, cc, k) IN
+         IF cfg.maxmem # 0 /\ sz > cfg.maxmem
+         THEN [st |-> Finish([st EXCEPT !.c = c1], TRUE, p.v), hold |-> {}, go |-> TRUE]
+         ELSE LET cm == IF cfg.maxmem # 0 THEN AsyncMemLoop(cfg, c1, sz) ELSE c1
+                  c2 == IF LimitExceeded(cfg, cm) THEN FirstEvict(cfg, cm) ELSE cm IN
+              [st |-> Finish([st EXCEPT !.c = PushPut(c2, k, p.v, sz)], TRUE, p.v), hold |-> {}, go |-> TRUE]
     \* ---------------- invalidate_with(sel)
     [] p.lbl = "inv_with.aux" ->
          LET o == ops[p.i] IN
